@@ -15,7 +15,13 @@ use crate::scenario::*;
 
 pub fn generate(rng: &mut Rng, tier: Tier, stats: &mut GenStats) -> Scenario {
     let mut g = Gen::new(rng, tier);
-    let links = if g.rng.chance(4, 10) { LinkMode::Safe } else { LinkMode::None };
+    // the invariants are per yielded entry, so faulty links (error items are not judged here) may
+    // be present as well
+    let links = match g.rng.below(20) {
+        0..=10 => LinkMode::None,
+        11..=16 => LinkMode::Safe,
+        _ => LinkMode::All,
+    };
     let tree = g.tree(links);
     let model = Model::from_tree(&tree).unwrap();
     let cwd = g.pick_dir(&model, 30);
